@@ -9,7 +9,12 @@ put into real Problems; the real PDDLWriter / ANMLWriter are run (whole get_doma
 _get_mangled_name / _get_anml_name call recorded, and direct request sequences in random order with repeats and
 foreign items); Coq replays each history in the model and compares every name, both dictionaries and the lookups.
 Independent oracle (Python, from the property text): validity regex of the target language, keyword sets, injectivity
-(case-insensitive for PDDL), get_pddl_name / get_item_named mutually inverse, names present in the emitted text.
+(case-insensitive for PDDL, and after tokenisation: white space is not part of a token), get_pddl_name /
+get_item_named mutually inverse, names present in the emitted text.  The search through the real writers does not depend
+on the translator: when it fails closed the last generated tables + the pinned snapshot are used and the smallest failing
+input found is attached to the translator failure.  White-space family (ws_specs): every problem also has elements of
+every kind whose names differ from identifiers only by white space / control characters, with colliding twins; the
+non-ASCII separators are judged by the oracle only (outside the model's ASCII scope).
 """
 import fcntl
 import hashlib
